@@ -327,7 +327,37 @@ def check_aabb(fx, R):
             R.check(ok, 'B2', '%s::isInside' % cname, 'containment is `%s` of `|p-c| %s h`; the closed box needs `<=` on every coordinate (all/prod)' % (b['$RED'], b['$CMP']),
                     '|p-c| <= h on all coordinates', fx.rel(f['loc']), 'E-ORD')
         else:
-            R.undecided('B2', '%s::isInside' % cname, 'containment idiom not recognised: %s' % (r,))
+            # E-STEP: the predicate on one generic coordinate (point p, centre c, half extent h) on witness cells
+            from .. import mini
+            body_txt = str([deep_unwrap(sx(x.get('e'))) for x in walk(f['body']) if x.get('k') == 'Return' and x.get('e') is not None] +
+                           [deep_unwrap(sx(v['init'])) for x in walk(f['body']) if x.get('k') == 'Decl' for v in x['vars'] if v.get('init') is not None])
+            if not all(nm_ in body_txt for nm_ in ("'point'", "'this.centerPosition_'", "'this.halfWidthExtents_'")):
+                R.undecided('B2', '%s::isInside' % cname, 'containment idiom not recognised: %s' % (r,))
+            else:
+                bad, n_ok, why = None, 0, None
+                for h in (0.0, 1.0, 2.5):
+                    for c_ in (0.0, -3.0):
+                        for u in (-h - 1, -h, -h / 2, 0.0, h / 2, h, h + 1):
+                            try:
+                                got = mini.Step(deep_unwrap).call(f['body'], {'point': c_ + u, 'this.centerPosition_': c_, 'this.halfWidthExtents_': h})
+                            except mini.Unsupported as e:
+                                why = str(e)
+                                break
+                            if bool(got) != (abs(u) <= h):
+                                bad = bad or (c_ + u, c_, h, got)
+                            else:
+                                n_ok += 1
+                        if why:
+                            break
+                    if why:
+                        break
+                if why:
+                    R.undecided('B2', '%s::isInside' % cname, 'containment predicate not interpretable on scalars: %s' % why)
+                elif bad:
+                    R.violated('B2', 'AxisAlignedBoundingBox::isInside:predicate', 'for a coordinate %g of the point, centre %g and half extent %g the predicate evaluates to %s, `|p - c| <= h` is %s [%s]' % (
+                        bad[0], bad[1], bad[2], bool(bad[3]), abs(bad[0] - bad[1]) <= bad[2], cname), fx.rel(f['loc']), 'E-STEP')
+                else:
+                    R.holds('B2', '%s::isInside' % cname, 'predicate agrees with |p - c| <= h on %d witness cells (zero, unit and generic extents; inside, on the face, outside)' % n_ok, fx.rel(f['loc']), 'E-STEP')
     # B4 round trip
     for cq in sorted({f['cls'] for f in fns}):
         cname = short_fn(cq)
